@@ -1,0 +1,56 @@
+//go:build verif
+
+// verif_hooks.go: accessors for the external verification harness (/verif).
+// Compiled only with -tags verif; adds no behaviour to the package.
+package absnfs
+
+import (
+	"sort"
+
+	"github.com/absfs/absfs"
+)
+
+// VerifNewHandleMap builds an empty FileHandleMap with the given maximum,
+// exactly as New does (nextHandle starts at 1).
+func VerifNewHandleMap(max int) *FileHandleMap {
+	return &FileHandleMap{
+		handles:     make(map[uint64]absfs.File),
+		pathHandles: make(map[string]uint64),
+		nextHandle:  1,
+		freeHandles: NewUint64MinHeap(),
+		maxHandles:  max,
+	}
+}
+
+// VerifNewNode builds a bare NFSNode for a path (no backend attached).
+func VerifNewNode(path string) *NFSNode {
+	return &NFSNode{path: path, attrs: &NFSAttrs{}, children: make(map[string]*NFSNode)}
+}
+
+// VerifHandleEntry is one row of the handle table.
+type VerifHandleEntry struct {
+	Handle uint64
+	Path   string
+}
+
+// VerifTable returns the handle table sorted by handle value.
+func (fm *FileHandleMap) VerifTable() []VerifHandleEntry {
+	fm.RLock()
+	defer fm.RUnlock()
+	out := make([]VerifHandleEntry, 0, len(fm.handles))
+	for h, f := range fm.handles {
+		p := ""
+		if n, ok := f.(*NFSNode); ok {
+			p = n.path
+		}
+		out = append(out, VerifHandleEntry{h, p})
+	}
+	sort.Slice(out, func(i, j int) bool { return out[i].Handle < out[j].Handle })
+	return out
+}
+
+// VerifSetMaxHandles sets the handle limit of a server's table.
+func (s *AbsfsNFS) VerifSetMaxHandles(max int) { s.fileMap.maxHandles = max }
+
+// VerifFileMap exposes the server's handle table.
+func (s *AbsfsNFS) VerifFileMap() *FileHandleMap { return s.fileMap }
